@@ -74,6 +74,79 @@ CHECKS = {
     ref='6/C16',
     technique='Coq proof (escaping, splitting) + byte-exact model of '
               'genhtml.py run against the implementation + HTML parser oracle'),
+
+ 'C01': dict(
+    text='partial: the executable model covers scanner, expander with all '
+         'handlers (cleveref excepted), blank-line pass, get_txt_pos, phrase '
+         'replacement and language splitting; proved so far are the '
+         'algorithm-level lemmas listed in coq/props/C01.v; the invariant over '
+         'all expansion steps is decided by the differential run and the '
+         'oracle, not yet by a theorem',
+    ref='6/C01', technique='Coq model + lemmas; extracted-model differential '
+         'run on the parser stream x option matrix; statement oracle; CLI --nums'),
+ 'C02': dict(
+    text='partial: model as for C01; faithfulness of copied text is decided '
+         'by the differential run and the marker-word oracle; theorems so far '
+         'are the algorithm-level lemmas in coq/props/C02.v',
+    ref='6/C02', technique='Coq model + lemmas; differential run; marker-word oracle'),
+ 'C03': dict(
+    text='partial: model as for C01; conservation of words and absence of '
+         'hidden text are decided by the differential run and the generator '
+         'oracle; theorems so far: lemmas in coq/props/C03.v',
+    ref='6/C03', technique='Coq model + lemmas; differential run; word / hidden-text oracle'),
+ 'C04': dict(
+    text='partial: model as for C01 (cleveref unmodelled: oracle only); span '
+         'containment is decided by the differential run and the span oracle '
+         'over every catalogue entry',
+    ref='6/C04', technique='Coq model + lemmas; differential run; span oracle over the catalogue'),
+ 'C05': dict(
+    text='partial: executable model of the blank-line pass and the scanner; '
+         'the layout claims are decided by the differential run and a TeX '
+         'white-space reference over enumerated layouts',
+    ref='6/C05', technique='Coq model + lemmas; layout enumerator; TeX reference oracle'),
+ 'C06': dict(
+    text='partial: executable model; exhaustive strings over the alphabet of '
+         'the property compared with the model and with the documented table',
+    ref='6/C06', technique='Coq model + lemmas; exhaustive small strings; table oracle'),
+ 'C07': dict(
+    text='partial: the model makes every partial Python operation explicit '
+         '(result type with Exc); absence of exceptions on the malformed '
+         'stream is decided by the differential run (outcome classes) with a '
+         'time limit per case; no termination theorem',
+    ref='6/C07', technique='Coq model with explicit exceptions and fuel; malformed-input differential run'),
+ 'C08': dict(
+    text='partial: model of latex_error and all error sites; diagnostics and '
+         'mark positions compared with the model; fault-injection oracle',
+    ref='6/C08', technique='Coq model + lemmas; fault injector; differential run'),
+ 'C09': dict(
+    text='partial: model of \\newcommand / \\def / generate_replacements; '
+         'generator with its own TeX substitution semantics; three supply '
+         'routes compared',
+    ref='6/C09', technique='Coq model + lemmas; definition-set generator; route comparison'),
+ 'C10': dict(
+    text='partial: model of the maths parser; formula enumerator with the '
+         'statement of the property as oracle; per-language rotation',
+    ref='6/C10', technique='Coq model + lemmas; formula enumerator; differential run'),
+ 'C11': dict(
+    text='partial: model of the maths parser; equation enumerator; structural '
+         'oracle; exact placeholder sequence by the differential run',
+    ref='6/C11', technique='Coq model + lemmas; equation enumerator; differential run'),
+ 'C12': dict(
+    text='partial: executable model of get_txt_pos_ml and the babel handlers; '
+         'language labels, positions, placeholder rule and word equality with '
+         'the single-language run by generator oracle and differential run',
+    ref='6/C12', technique='Coq model + lemmas; nested-language generator; differential run'),
+ 'C17': dict(
+    text='structural: the model is a function of document, options and files; '
+         'the generated inventory of module-level state is an obligation '
+         're-proved on every run; the implementation side is a differential '
+         'check over call histories and server request sequences',
+    ref='6/C17', technique='Coq obligation on generated inventory + history differential (fresh process vs sequence, HTTP)'),
+ 'C19': dict(
+    text='partial: model of the unknowns bookkeeping inside the expander; '
+         'list compared with the model and with the generator oracle; shell '
+         '--list-unknown output',
+    ref='6/C19', technique='Coq model + lemmas; differential run; generator oracle'),
 }
 
 NOT_YET = {}
